@@ -48,7 +48,8 @@ def derived(G, M, nodes, wins):
         yield 'to_undirected(reciprocal)', (lambda: G.to_undirected(reciprocal=True))
     else:
         yield 'to_directed', (lambda: G.to_directed())
-    if common.simple_ids(G.nodes()):
+    # the text formats cannot tell 1 from '1': only universes of one id type go through them
+    if common.simple_ids(G.nodes()) and len({type(n) for n in G.nodes()}) <= 1:
         nt = int if all(type(n) is int for n in G.nodes()) else None
         yield 'parse_snapshots', (lambda: dn.parse_snapshots(list(dn.generate_snapshots(G)), directed=G.is_directed(),
                                                            nodetype=nt, timestamptype=int))
